@@ -239,11 +239,13 @@ structure SenderSame (o o' : Obj) : Prop where
   cap : o'.cap = o.cap
   threshold : o'.threshold = o.threshold
   fid : o'.fid = o.fid
+  alive : o'.senderAlive = o.senderAlive
+  rxOpen : o'.rxOpen = true → o.rxOpen = true
 
-theorem SenderSame.refl (o : Obj) : SenderSame o o := ⟨rfl, rfl, rfl, rfl, rfl⟩
+theorem SenderSame.refl (o : Obj) : SenderSame o o := ⟨rfl, rfl, rfl, rfl, rfl, rfl, id⟩
 theorem SenderSame.trans {a b c : Obj} (s : SenderSame a b) (t : SenderSame b c) : SenderSame a c :=
   ⟨by rw [t.credit, s.credit], by rw [t.finishSent, s.finishSent], by rw [t.cap, s.cap],
-   by rw [t.threshold, s.threshold], by rw [t.fid, s.fid]⟩
+   by rw [t.threshold, s.threshold], by rw [t.fid, s.fid], by rw [t.alive, s.alive], fun h => s.rxOpen (t.rxOpen h)⟩
 
 abbrev AcksOf (y : Nat) (em : List Msg) : Prop := ∀ m ∈ em, ∃ n, m = .frame (.acknowledge y n)
 
@@ -273,10 +275,10 @@ theorem fillBuf_coarse (fuel : Nat) (e : EP) (i : Nat) (o : Obj) (ho : e.objs[i]
           rcases ackStep_local _ i { o with rxq := rest, buf := f } _ s1.self hoc1 with ⟨_, s2⟩ | ⟨_, s2⟩
           · have u := s1.trans s2
             simp only [List.nil_append, List.append_nil] at u
-            exact ⟨_, _, u, ⟨rfl, rfl, rfl, rfl, rfl⟩, by intro m hm; simp at hm; exact ⟨_, hm⟩⟩
+            exact ⟨_, _, u, ⟨rfl, rfl, rfl, rfl, rfl, rfl, id⟩, by intro m hm; simp at hm; exact ⟨_, hm⟩⟩
           · have u := s1.trans s2
             simp only [List.append_nil] at u
-            exact ⟨_, _, u, ⟨rfl, rfl, rfl, rfl, rfl⟩, by intro m hm; cases hm⟩
+            exact ⟨_, _, u, ⟨rfl, rfl, rfl, rfl, rfl, rfl, id⟩, by intro m hm; cases hm⟩
         obtain ⟨o2, em2, u2, ss2, ak2⟩ := key
         split
         · have hoc2 : (ackStep (e.modObj i (fun o => { o with rxq := rest, buf := f })) i
@@ -290,7 +292,7 @@ theorem fillBuf_coarse (fuel : Nat) (e : EP) (i : Nat) (o : Obj) (ho : e.objs[i]
         · exact ⟨o2, em2, u2, ss2, ak2⟩
       · split
         · exact ⟨o, [], LocalUpd.refl e i o ho, SenderSame.refl o, by intro m hm; cases hm⟩
-        · exact ⟨_, [], LocalUpd.modObj e i _ o _ ho rfl, ⟨rfl, rfl, rfl, rfl, rfl⟩, by intro m hm; cases hm⟩
+        · exact ⟨_, [], LocalUpd.modObj e i _ o _ ho rfl, ⟨rfl, rfl, rfl, rfl, rfl, rfl, fun h => by cases h⟩, by intro m hm; cases hm⟩
 
 /-- `poll_read` in any state. -/
 theorem appRead_coarse (e : EP) (h i n : Nat) (o : Obj) (hh : e.handleObj h = some (i, o)) (hoc : e.outClosed = false) :
@@ -307,7 +309,7 @@ theorem appRead_coarse (e : EP) (h i n : Nat) (o : Obj) (hh : e.handleObj h = so
     have s2 := LocalUpd.modObj e1 i (fun o => { o with buf := b.drop n }) o1 _ u1.self rfl
     have u := u1.trans s2
     simp only [List.append_nil] at u
-    exact ⟨_, _, u, ss1.trans ⟨rfl, rfl, rfl, rfl, rfl⟩, ak1⟩
+    exact ⟨_, _, u, ss1.trans ⟨rfl, rfl, rfl, rfl, rfl, rfl, id⟩, ak1⟩
   | _ => exact ⟨o1, em1, u1, ss1, ak1⟩
 
 end Penguin.Mux
@@ -339,88 +341,154 @@ theorem LocalUpd.silent {e e' : EP} (i : Nat) (o : Obj) (ho : e.objs[i]? = some 
     (h5 : e'.outq = e.outq) (h6 : e'.droppedq = e.droppedq) : LocalUpd e e' i o [] [] :=
   ⟨h1, h2, h3, fun _ _ => by rw [h4], by rw [h4]; exact ho, by simp [h5], by simp [h6]⟩
 
-/-- A frame (not a `Connect`) for a flow whose slot is established: either the slot is removed
-    (`Reset`, or a `Push` beyond the window), or the effect is local to the stream object, as listed. -/
+/-- The slot of flow `x` (established, object `i`) is removed: the object is closed in both
+    directions, at most one `Reset` is queued, nothing else changes. -/
+structure RemUpd (e e' : EP) (x i : Nat) (o' : Obj) (em : List Msg) : Prop where
+  flows : e'.flows = erase e.flows x
+  rng : e'.rng = e.rng
+  opts : e'.opts = e.opts
+  others : ∀ k, k ≠ i → e'.objs[k]? = e.objs[k]?
+  self : e'.objs[i]? = some o'
+  outq : e'.outq = e.outq ++ em
+  dq : e'.droppedq = e.droppedq
+
+theorem closeFlow_est (e : EP) (x i : Nat) (o : Obj) (inh : Bool)
+    (hs : lookup e.flows x = some (.established i)) (ho : e.objs[i]? = some o) (hoc : e.outClosed = false) :
+    RemUpd e (closeFlow e x inh).1 x i { o.disallowWrite with senderAlive := false }
+      (if !o.finishSent && !inh then [.frame (.reset x)] else []) := by
+  have ho' : EP.obj? { e with flows := erase e.flows x } i = some o := ho
+  unfold closeFlow
+  rw [hs]
+  simp only [closeLocal, ho']
+  split
+  · refine ⟨by simp [EP.enqFrame], by simp [EP.enqFrame], by simp [EP.enqFrame], ?_, ?_, ?_, by simp [EP.enqFrame]⟩
+    · intro k hk; simp only [EP.enqFrame, enq_objs]; exact modObj_get_ne _ _ _ _ hk
+    · simp only [EP.enqFrame, enq_objs]; rw [modObj_get_self]; simp [ho]
+    · simp [EP.enqFrame, enq_outq, hoc]
+  · refine ⟨rfl, rfl, rfl, ?_, ?_, by simp, rfl⟩
+    · intro k hk; exact modObj_get_ne _ _ _ _ hk
+    · rw [modObj_get_self]; simp [ho]
+
+/-- A frame (not a `Connect`, not a `Bind`) for a flow whose slot is established: either the slot is
+    removed (`Reset`, or a `Push` beyond the window), or the effect is local to the stream object. -/
 theorem processFrame_est (e : EP) (f : Frame) (ig : Bool) (x i : Nat) (o : Obj)
     (hs : lookup e.flows x = some (.established i)) (ho : e.objs[i]? = some o) (hid : f.id = x)
     (hnc : (Msg.frame f).isConnect = false) (hoc : e.outClosed = false) :
-    lookup (processFrame e f ig).1.flows x = none ∨
-    ∃ o' em, LocalUpd e (processFrame e f ig).1 i o' em [] ∧ ResetsOf x em ∧
+    (RemUpd e (processFrame e f ig).1 x i { o.disallowWrite with senderAlive := false } [] ∧ f = .reset x) ∨
+    (∃ d, f = .push x d ∧ o.senderAlive = true ∧ o.rxOpen = true ∧ ¬ o.rxq.length < o.cap ∧
+        RemUpd e (processFrame e f ig).1 x i { o.disallowWrite with senderAlive := false }
+          (if !o.finishSent then [.frame (.reset x)] else [])) ∨
+    ∃ o' em, LocalUpd e (processFrame e f ig).1 i o' em [] ∧
       ((∃ n, f = .acknowledge x n ∧ o' = { o.wake with credit := (o.credit + n) % 4294967296 } ∧ em = []) ∨
        (f = .finish x ∧ o' = { o with senderAlive := false } ∧ em = []) ∨
        (∃ d, f = .push x d ∧
           ((o.senderAlive = true ∧ o.rxOpen = true ∧ o.rxq.length < o.cap ∧ o' = { o with rxq := o.rxq ++ [d] } ∧ em = []) ∨
-           (¬ (o.senderAlive = true ∧ o.rxOpen = true) ∧ o' = o))) ∨
-       ((∃ bt port host, f = .bind x bt port host) ∨ (∃ port host d, f = .datagram x port host d)) ∧ o' = o) := by
+           (o.senderAlive = false ∧ o' = o ∧ em = [.frame (.reset x)]) ∨
+           (o.senderAlive = true ∧ o.rxOpen = false ∧ o' = o ∧ em = []))) ∨
+       ((∃ bt port host, f = .bind x bt port host) ∨ (∃ port host d, f = .datagram x port host d))) := by
   have ho' : e.obj? i = some o := ho
   cases f with
   | connect fid rwnd port host => simp [Msg.isConnect] at hnc
   | acknowledge fid n =>
     simp only [Frame.id] at hid; subst hid
-    right
-    refine ⟨_, [], ?_, (by intro m hm; cases hm), Or.inl ⟨n, rfl, rfl, rfl⟩⟩
+    right; right
+    refine ⟨_, [], ?_, Or.inl ⟨n, rfl, rfl, rfl⟩⟩
     simp only [processFrame, hs]
     exact LocalUpd.modObj e i _ o _ ho rfl
   | finish fid =>
     simp only [Frame.id] at hid; subst hid
-    right
-    refine ⟨_, [], ?_, (by intro m hm; cases hm), Or.inr (Or.inl ⟨rfl, rfl, rfl⟩)⟩
+    right; right
+    refine ⟨_, [], ?_, Or.inr (Or.inl ⟨rfl, rfl, rfl⟩)⟩
     simp only [processFrame, hs]
     exact LocalUpd.modObj e i _ o _ ho rfl
   | reset fid =>
     simp only [Frame.id] at hid; subst hid
     left
     simp only [processFrame]
-    exact closeFlow_slot_none e fid true
+    have := closeFlow_est e fid i o true hs ho hoc
+    simp only [Bool.not_true, Bool.and_false, Bool.false_eq_true, if_false] at this
+    exact ⟨this, trivial⟩
   | push fid d =>
     simp only [Frame.id] at hid; subst hid
     by_cases ha : o.senderAlive = true
     · by_cases hr : o.rxOpen = true
       · by_cases hroom : o.rxq.length < o.cap
-        · right
+        · right; right
           have hres : (processFrame e (.push fid d) ig).1 = e.modObj i (fun o => { o with rxq := o.rxq ++ [d] }) := by
             simp [processFrame, hs, ho', ha, hr, hroom]
           rw [hres]
-          exact ⟨_, [], LocalUpd.modObj e i _ o _ ho rfl, (by intro m hm; cases hm),
+          exact ⟨_, [], LocalUpd.modObj e i _ o _ ho rfl,
             Or.inr (Or.inr (Or.inl ⟨d, rfl, Or.inl ⟨ha, hr, hroom, rfl, rfl⟩⟩))⟩
-        · left
+        · right; left
           have hres : (processFrame e (.push fid d) ig).1 = (closeFlow e fid false).1 := by
             simp [processFrame, hs, ho', ha, hr, hroom]
           rw [hres]
-          exact closeFlow_slot_none e fid false
-      · right
+          have := closeFlow_est e fid i o false hs ho hoc
+          simp only [Bool.not_false, Bool.and_true] at this
+          exact ⟨d, rfl, ha, hr, hroom, this⟩
+      · right; right
         have hr' : o.rxOpen = false := by simpa using hr
         have hres : (processFrame e (.push fid d) ig).1 = e := by
           simp [processFrame, hs, ho', ha, hr']
         rw [hres]
-        exact ⟨o, [], LocalUpd.refl e i o ho, (by intro m hm; cases hm),
-          Or.inr (Or.inr (Or.inl ⟨d, rfl, Or.inr ⟨by simp [hr'], rfl⟩⟩))⟩
-    · right
+        exact ⟨o, [], LocalUpd.refl e i o ho,
+          Or.inr (Or.inr (Or.inl ⟨d, rfl, Or.inr (Or.inr ⟨ha, hr', rfl, rfl⟩)⟩))⟩
+    · right; right
       have ha' : o.senderAlive = false := by simpa using ha
       have hres : (processFrame e (.push fid d) ig).1 = e.enqFrame (.reset fid) := by
         simp [processFrame, hs, ho', ha']
       rw [hres]
-      exact ⟨o, [.frame (.reset fid)], LocalUpd.enqFrame e _ i o ho hoc, (by intro m hm; simpa using hm),
-        Or.inr (Or.inr (Or.inl ⟨d, rfl, Or.inr ⟨by simp [ha'], rfl⟩⟩))⟩
+      exact ⟨o, [.frame (.reset fid)], LocalUpd.enqFrame e _ i o ho hoc,
+        Or.inr (Or.inr (Or.inl ⟨d, rfl, Or.inr (Or.inl ⟨ha', rfl, rfl⟩)⟩))⟩
   | bind fid bt port host =>
     simp only [Frame.id] at hid; subst hid
-    right
+    right; right
     simp only [processFrame]
     split
-    · exact ⟨o, [.frame (.reset fid)], LocalUpd.enqFrame e _ i o ho hoc, (by intro m hm; simpa using hm),
-        Or.inr (Or.inr (Or.inr ⟨Or.inl ⟨bt, port, host, rfl⟩, rfl⟩))⟩
+    · exact ⟨o, [.frame (.reset fid)], LocalUpd.enqFrame e _ i o ho hoc, Or.inr (Or.inr (Or.inr (Or.inl ⟨bt, port, host, rfl⟩)))⟩
     · split
-      · exact ⟨o, [], LocalUpd.refl e i o ho, (by intro m hm; cases hm), Or.inr (Or.inr (Or.inr ⟨Or.inl ⟨bt, port, host, rfl⟩, rfl⟩))⟩
+      · exact ⟨o, [], LocalUpd.refl e i o ho, Or.inr (Or.inr (Or.inr (Or.inl ⟨bt, port, host, rfl⟩)))⟩
       · split
-        · exact ⟨o, [.frame (.reset fid)], LocalUpd.enqFrame e _ i o ho hoc, (by intro m hm; simpa using hm),
-            Or.inr (Or.inr (Or.inr ⟨Or.inl ⟨bt, port, host, rfl⟩, rfl⟩))⟩
-        · refine ⟨o, [], ?_, (by intro m hm; cases hm), Or.inr (Or.inr (Or.inr ⟨Or.inl ⟨bt, port, host, rfl⟩, rfl⟩))⟩
+        · exact ⟨o, [.frame (.reset fid)], LocalUpd.enqFrame e _ i o ho hoc, Or.inr (Or.inr (Or.inr (Or.inl ⟨bt, port, host, rfl⟩)))⟩
+        · refine ⟨o, [], ?_, Or.inr (Or.inr (Or.inr (Or.inl ⟨bt, port, host, rfl⟩)))⟩
           unfold offerBind
           split <;> exact LocalUpd.silent i o ho rfl rfl rfl rfl rfl rfl
   | datagram fid port host d =>
     simp only [Frame.id] at hid; subst hid
-    right
-    refine ⟨o, [], ?_, (by intro m hm; cases hm), Or.inr (Or.inr (Or.inr ⟨Or.inr ⟨port, host, d, rfl⟩, rfl⟩))⟩
+    right; right
+    refine ⟨o, [], ?_, Or.inr (Or.inr (Or.inr (Or.inr ⟨port, host, d, rfl⟩)))⟩
+    simp only [processFrame]
+    repeat' split
+    all_goals first | exact LocalUpd.refl e i o ho | exact LocalUpd.silent i o ho rfl rfl rfl rfl rfl rfl
+
+/-- A frame (not a `Connect`, not a `Bind`) for a flow that has no slot: no object is touched; the
+    answer is at most one `Reset`. -/
+theorem processFrame_none_local (e : EP) (f : Frame) (ig : Bool) (x i : Nat) (o : Obj)
+    (hs : lookup e.flows x = none) (ho : e.objs[i]? = some o) (hid : f.id = x)
+    (hnc : (Msg.frame f).isConnect = false) (hnb : ∀ a b c d, f ≠ .bind a b c d) (hoc : e.outClosed = false) :
+    ∃ em, LocalUpd e (processFrame e f ig).1 i o em [] ∧ ResetsOf x em := by
+  cases f with
+  | connect fid rwnd port host => simp [Msg.isConnect] at hnc
+  | bind fid bt port host => exact absurd rfl (hnb _ _ _ _)
+  | acknowledge fid n =>
+    simp only [Frame.id] at hid; subst hid
+    simp only [processFrame, hs]
+    exact ⟨_, LocalUpd.enqFrame e _ i o ho hoc, by intro m hm; simpa using hm⟩
+  | finish fid =>
+    simp only [Frame.id] at hid; subst hid
+    simp only [processFrame, hs]
+    exact ⟨_, LocalUpd.enqFrame e _ i o ho hoc, by intro m hm; simpa using hm⟩
+  | reset fid =>
+    simp only [Frame.id] at hid; subst hid
+    simp only [processFrame, closeFlow, hs]
+    exact ⟨[], LocalUpd.refl e i o ho, by intro m hm; cases hm⟩
+  | push fid d =>
+    simp only [Frame.id] at hid; subst hid
+    simp only [processFrame, hs]
+    exact ⟨_, LocalUpd.enqFrame e _ i o ho hoc, by intro m hm; simpa using hm⟩
+  | datagram fid port host d =>
+    simp only [Frame.id] at hid; subst hid
+    refine ⟨[], ?_, by intro m hm; cases hm⟩
     simp only [processFrame]
     repeat' split
     all_goals first | exact LocalUpd.refl e i o ho | exact LocalUpd.silent i o ho rfl rfl rfl rfl rfl rfl
